@@ -215,6 +215,12 @@ func genFramedMessage(g *gen, small bool, big bool) []byte {
 	if g.chance(25) {
 		parts.EOL = "\n"
 	}
+	if g.chance(25) {
+		parts.CLName = g.pick("l", "L", "content-length", "CONTENT-LENGTH", "Content-length")
+	}
+	if g.chance(6) {
+		parts.CLZeros = g.rng(1, 3)
+	}
 	data := g.assemble(parts)
 	if !big && len(data) > 60000 {
 		parts.Ext = parts.Ext[:len(parts.Ext)/3]
